@@ -93,12 +93,15 @@ def check_maintenance(ctx, confirm=None):
                 '(keyspace deleted, or persisted seqno >= lsn); queue and byte counter follow; a failed unlink changes nothing', [pat])
     holder = {}
 
+    nj = NJ if ctx.tier == 'quick' else 3
+    holder['nj'] = nj
+
     def setup(ex, st, fr):
-        jm, desc, space = mk_state(ex, st)
+        jm, desc, space = mk_state(ex, st, nj=nj)
         holder['desc'] = desc; holder['space'] = space
         fr.locals[fr.fn.args[0]] = Cell(Ref(Cell(jm)))
         st.globals['__jm'] = jm
-    ex = ctx.executor(loop_bound=NJ * NW + 3, overrides=tree_overrides(), timeout_s=120)
+    ex = ctx.executor(loop_bound=nj * NW + 3, overrides=tree_overrides(), timeout_s=120)
     fn = ctx.prog.find(pat)
     paths = ex.run(fn, setup=setup)
     ctx.functions_encoded[fn.key] = ctx.prog.hashes.get(fn.name, '')
@@ -407,7 +410,7 @@ def run(ctx):
     ctx.assumptions += [
         'E8: flushes of one keyspace are FIFO and get_highest_persisted_seqno is the highest seqno in its tables, so persisted >= s implies every record of that keyspace with seqno <= s is in tables',
         'C14 (checked separately): a record is applied to its memtable under the journal lock, so at sealing time get_highest_memtable_seqno >= every record of that keyspace in the sealed journal that is not yet in tables',
-        f'bounds: {NJ} queued journals x {NW} watermarks, symbolic lsn / persisted / deleted; 2 keyspaces in build_seqno_map',
+        f'bounds: {NJ} (quick) / 3 (thorough) queued journals x {NW} watermarks, symbolic lsn / persisted / deleted; 2 keyspaces in build_seqno_map',
         'file system by contract F2 (remove_file either removes the file or fails)',
     ]
     for o in ctx.obligations:
